@@ -239,6 +239,15 @@ fn find_output_type(item_impl: &ItemImpl) -> Result<&Type> {
     bail!(_, "cannot find associate type `Output`");
 }
 fn to_ref_elem(ty: &Type) -> (Type, bool) {
+    // look through parentheses and the invisible group of a `macro_rules!` `$t:ty` fragment
+    let mut ty = ty;
+    loop {
+        match ty {
+            Type::Paren(t) => ty = &t.elem,
+            Type::Group(t) => ty = &t.elem,
+            _ => break,
+        }
+    }
     if let Type::Reference(tr) = ty {
         if tr.lifetime.is_none() && tr.mutability.is_none() {
             return (tr.elem.as_ref().clone(), true);
